@@ -187,7 +187,10 @@ func (s *hSim) fresh(t *oidc.TokenResponse, now time.Time) bool {
 	return true
 }
 
-func (s *hSim) expectedOKHeaders(t *oidc.TokenResponse) map[string]string {
+// expectedOKHeaders: from the statement - the ID token always, the access token when forwarding is configured, each
+// under its configured header and preamble - as a sorted list of "name: value" lines (a list, not a map: two tokens
+// configured under one name are two expected headers)
+func (s *hSim) expectedOKHeaders(t *oidc.TokenResponse) []string {
 	c := s.w.cfg
 	pre := func(p, v string) string {
 		if p != "" {
@@ -195,10 +198,11 @@ func (s *hSim) expectedOKHeaders(t *oidc.TokenResponse) map[string]string {
 		}
 		return v
 	}
-	m := map[string]string{c.IDHeader: pre(c.IDPreamble, t.IDToken)}
+	m := []string{c.IDHeader + ": " + pre(c.IDPreamble, t.IDToken)}
 	if c.Access && t.AccessToken != "" {
-		m[c.AccHeader] = pre(c.AccPreamble, t.AccessToken)
+		m = append(m, c.AccHeader+": "+pre(c.AccPreamble, t.AccessToken))
 	}
+	sort.Strings(m)
 	return m
 }
 
@@ -269,13 +273,17 @@ func (s *hSim) monitor(q hReq, o hObs) {
 			}
 			// C02.2 / C14.3: forwarded headers are exactly the bound tokens
 			want := s.expectedOKHeaders(bound)
-			got := map[string]string{}
+			got := []string{}
 			for _, h := range okr.GetHeaders() {
-				got[h.GetHeader().GetKey()] = h.GetHeader().GetValue()
+				got = append(got, h.GetHeader().GetKey()+": "+h.GetHeader().GetValue())
 			}
-			if fmt.Sprint(want) != fmt.Sprint(got) || len(okr.GetHeaders()) != len(want) {
+			sort.Strings(got)
+			if fmt.Sprint(want) != fmt.Sprint(got) {
 				if c.Access && c.AccHeader == c.IDHeader {
-					s.r.Known = appendUniq(s.r.Known, "C02-equal-header-names")
+					// one header name configured for both tokens: the access token overwrites the ID token in the header
+					// map (recorded finding; the model proves exactly this: C02.same_header_drops_id)
+					s.violate("C02", "the ID token is not injected: id_token.header and access_token.header are the same name and the access token replaces it",
+						map[string]any{"finding_id": "C02-equal-header-names", "request": q, "want": want, "got": got})
 				} else {
 					s.violate("C02", "the headers injected on OK are not exactly the tokens bound to the presented session under their configured header and preamble", map[string]any{"request": q, "want": want, "got": got})
 					s.violate("C14", "an OK answer adds something other than the ID token (and access token when configured)", map[string]any{"request": q, "want": want, "got": got})
@@ -512,11 +520,7 @@ func (s *hSim) checkCookie(q hReq, o hObs, sc string, isLogout bool, presented s
 	ck := cs[0]
 	switch {
 	case !strings.HasPrefix(ck.Name, "__Host-") || ck.Name != c.cookieName():
-		if strings.ContainsAny(c.Prefix, ";=, \t") || !isTokenString(c.Prefix) {
-			s.r.Known = appendUniq(s.r.Known, "C05-unvalidated-cookie-prefix")
-		} else {
-			bad("is not named with the __Host- prefix and the configured name")
-		}
+		bad("is not named with the __Host- prefix and the configured name")
 	case ck.Path != "/":
 		bad("does not have Path=/")
 	case ck.Domain != "":
